@@ -199,6 +199,14 @@ def run(ctx):
         fp = "".join(rnd.choice("0123456789") for _ in range(fd))
         s = rnd.choice(("", "", "-")) + ip + (("." + fp) if fd or rnd.random() < 0.05 else "")
         am.append(s)
+    # scientific notation: every combination of fraction / trailing zeros in the mantissa with a signed exponent
+    am += ["8947.024E-3", "89470240e-7", "89.47024e-1", "894702400e-8", "0.8947024e1", "8947024e-6", "1.50e-1", "100e-2", "1.0e0", "10.0e-1", "0.10e1", "1200e-4", "1.2e-9",
+           "120e-10", "1e-0", "1e+0", "5e-8", "50e-9", "0.5e-7", "1e18", "1e19", "92233720368.54775807e0", "9223372036854775807e-8", "9223372036854775808e-8"]
+    for _ in range(1500 if quick else 60000):
+        ip = str(rnd.choice((0, 1, 7, 12, 100, 1200, rnd.randrange(10 ** rnd.randrange(1, 10)))))
+        fp = "".join(rnd.choice("0123456789") for _ in range(rnd.randrange(0, 7))) + rnd.choice(("", "", "0", "00"))
+        ex = rnd.randrange(-12, 12)
+        am.append(rnd.choice(("", "", "-")) + ip + (("." + fp) if fp else "") + rnd.choice("eE") + rnd.choice(("", "+") if ex >= 0 else ("",)) + str(ex))
     alines = ["AMOUNT " + (a.encode().hex() or "-") for a in am]
     impl = ctx.harness_sharded(alines)
     model = ctx.driver_sharded(alines, "model")
@@ -213,6 +221,22 @@ def run(ctx):
                 want = "OK " + str(-v if m.group(1) and v else v)
                 if i.replace("OK -0", "OK 0") != want:
                     ctx.violation(l, {"why": "amount not converted to satoshis exactly", "impl": i, "expected": want, "text": a})
+    # independent exact conversion of the scientific forms (decimal arithmetic)
+    from decimal import Decimal, getcontext
+    getcontext().prec = 60
+    for a, l, i in zip(am, alines, impl):
+        m = re.fullmatch(r"(-?)(0|[1-9][0-9]*)(?:\.([0-9]+))?[eE]([+-]?[0-9]+)", a)
+        if m and abs(int(m.group(4))) <= 30:
+            v = Decimal(m.group(2) + ("." + m.group(3) if m.group(3) else "")) * (Decimal(10) ** (int(m.group(4)) + 8))
+            if v == v.to_integral_value() and v < 10 ** 18:
+                want = "OK " + str(-int(v) if m.group(1) and int(v) else int(v))
+                # (refusals of exotic spellings — a zero mantissa with a large negative exponent — are the parser's domain, decided by the
+                #  three-way comparison above; the oracle speaks about values, and about refusals only for plain exponents of non-zero amounts)
+                refusal_counts = i.startswith("ERR") and v != 0 and abs(int(m.group(4))) <= 8
+                if (i.startswith("OK") and i.replace("OK -0", "OK 0") != want) or refusal_counts:
+                    ctx.violation(l, {"why": "amount in scientific notation not converted to satoshis exactly", "impl": i, "expected": want, "text": a})
+            elif v != v.to_integral_value() and i.startswith("OK"):
+                ctx.violation(l, {"why": "an amount with more than 8 decimal places after scaling was accepted", "impl": i, "text": a})
     # --tx argument with amount prefix
     xs = []
     for h in docs[:6] + [ser_tx(t).hex() for t in gen[:30]]:
